@@ -467,8 +467,14 @@ def prove_pierce(src_root, ex: Explorer):
         fut = new(it, NET, 'PeerFuture', ticket=77, username='bob', typ='D')
         if known:
             w.net.attrs['_expected_connection_futures'][77] = fut
+        finalized = []
+        conn.attrs['username'], conn.attrs['connection_type'] = None, 'P'      # an accepted connection before its initialisation
+        it.hooks[f'{NET}:Network._finalize_peer_connection'] = lambda it2, f, a, k: finalized.append((a[1], a[1].attrs.get('username'), a[1].attrs.get('connection_type')))
         run(it, it.getattr(w.net, 'on_peer_accepted'), conn)
         if known:
+            ctx.prove('C11.pierce.finalized-as-requested', finalized == [(conn, 'bob', 'D')],
+                      f'the pierced connection must be finalised (state, limiters, reader loop) with the user and the TYPE of the request that '
+                      f'waits for it, got {finalized!r}')
             f = fut.ghost['future']
             ctx.prove('C11.pierce.handoff[known]', f.done is True and f.result_val is conn and conn.attrs['username'] == 'bob'
                       and conn.attrs['connection_type'] == 'D' and not disc)
